@@ -185,7 +185,7 @@ def run_item(item, tier):
             viol("archive:members", "tar members %s (stray %s), expected top-level %s" % (tops, stray[:3], want_tops), art)
         with open(arch, "rb") as f:
             arch_bytes = f.read()
-        for mode in ("clean", "clean+run"):
+        for mode in ("clean", "clean+run", "clean+partial"):
             hist.restore_snapshot(snap, root)
             with open(arch, "wb") as f:
                 f.write(arch_bytes)
@@ -196,10 +196,18 @@ def run_item(item, tier):
                 hist.run(root, ["run", "//:all_b"], clock=driver.Clock(t + 100), behaviours=behaviours("ok"))
                 pre_rows = hist.rows(root) or []
                 res["transitions"] += 1
+            if mode == "clean+partial":
+                # what a restore killed while copying leaves behind: a fragment of one archived version's directory (unrecorded)
+                frag = os.path.join(root, "cond-out", vdir(want[0]))
+                os.makedirs(frag, exist_ok=True)
+                with open(os.path.join(frag, "stdout.log"), "w") as f:
+                    f.write("fragment")
             pre_tree = hist.data_tree(root)
             res["evals"] += 1
             rr = hist.run(root, ["restore", arch], clock=driver.Clock(t + 200))
             a2 = dict(art, mode=mode)
+            if mode == "clean+partial" and (rr.exit != 0 or rr.exc is not None):
+                continue  # refusing is fine (that is C12's subject); only a *successful* restore must be exact
             if rr.exit != 0 or rr.exc is not None:
                 viol("restore:failed", "cond restore exits %r %r: %s" % (rr.exit, rr.exc, rr.err_text[:300]), a2)
                 continue
@@ -216,7 +224,7 @@ def run_item(item, tier):
                      and not any(vdir(w).startswith(k + os.sep) for w in want)}
             if extra:
                 viol("restore:extra-entries", "restore left extra entries %s" % sorted(extra)[:4], a2)
-            changed = [k for k in pre_tree if tree1.get(k) != pre_tree[k]]
+            changed = [k for k in pre_tree if tree1.get(k) != pre_tree[k] and mode != "clean+partial"]
             if changed:
                 viol("restore:modified-existing", "restore modified existing entries %s" % changed[:4], a2)
             res["states"].add(explore.sig([sorted(rows1), hist.digest(tree1)]))
